@@ -586,3 +586,135 @@ theorem plus_set_stop (W S : CSet) (d : Nat) (hd : S.mem d = false) (pre : List 
   simp
 
 end MindsVerif.Re
+
+namespace MindsVerif.Re
+
+/-! ### rules that can cross the stop character (multi-word keywords in front of a blank): decided per word -/
+
+/-- the leading run of one-character classes of a regex, and what follows it -/
+def leadTail : Re → List CSet × Re
+  | .seq (.set s) r => (s :: (leadTail r).1, (leadTail r).2)
+  | r => ([], r)
+
+/-- the classes agree with the known text as far as both go -/
+def agree : List CSet → List Nat → Bool
+  | [], _ => true
+  | _ :: _, [] => true
+  | s :: ss, c :: cs => s.mem c && agree ss cs
+
+theorem lead_agree (W : CSet) : ∀ (r : Re) (pre u rest : List Nat) (k : Pos → Option Pos) (a : Pos),
+    m W r ⟨pre, u ++ rest⟩ k = some a → agree (leadTail r).1 u = true := by
+  intro r
+  induction r with
+  | seq x y _ ihy =>
+    intro pre u rest k a h
+    cases x with
+    | set s =>
+      simp only [leadTail]
+      cases u with
+      | nil => simp [agree]
+      | cons c t =>
+        rw [m_seq] at h
+        simp only [List.cons_append] at h
+        rw [m_set_cons] at h
+        by_cases hc : s.mem c = true
+        · rw [if_pos hc] at h
+          simp only [agree, hc, Bool.true_and]
+          exact ihy (c :: pre) t rest k a h
+        · rw [if_neg hc] at h; cases h
+    | _ => simp [leadTail, agree]
+  | _ => intro pre u rest k a _; simp [leadTail, agree]
+
+theorem lead_rem (W : CSet) : ∀ (r : Re) (pre u rest : List Nat) (k : Pos → Option Pos) (a : Pos),
+    m W r ⟨pre, u ++ rest⟩ k = some a → (leadTail r).1.length ≤ u.length →
+    m W (leadTail r).2 ⟨(u.take (leadTail r).1.length).reverse ++ pre, u.drop (leadTail r).1.length ++ rest⟩ k = some a := by
+  intro r
+  induction r with
+  | seq x y _ ihy =>
+    intro pre u rest k a h hl
+    cases x with
+    | set s =>
+      simp only [leadTail, List.length_cons] at hl ⊢
+      cases u with
+      | nil => simp at hl
+      | cons c t =>
+        rw [m_seq] at h
+        simp only [List.cons_append] at h
+        rw [m_set_cons] at h
+        by_cases hc : s.mem c = true
+        · rw [if_pos hc] at h
+          have := ihy (c :: pre) t rest k a h (by simpa using hl)
+          simpa using this
+        · rw [if_neg hc] at h; cases h
+    | _ => simpa [leadTail] using h
+  | _ => intro pre u rest k a h _; simpa [leadTail] using h
+
+def inSetB (s : CSet) (c : Nat) : Bool := s.any fun r => Nat.ble r.1 c && Nat.ble c r.2
+
+theorem inSetB_of_inSet {s : CSet} {c : Nat} (h : inSet s c) : inSetB s c = true := by
+  obtain ⟨r, hr, h1, h2⟩ := h
+  unfold inSetB
+  exact List.any_eq_true.mpr ⟨r, hr, by simp [Nat.ble_eq, h1, h2]⟩
+
+/-- a rule `\\b r'` is blocked at the word `w` followed by `d`: its leading classes disagree with `w d`, or they end inside `w`
+and what follows them cannot start with the next character of `w` -/
+def blockedLead (r : Re) (w : List Nat) (d : Nat) : Bool :=
+  match r with
+  | .seq (.bound false) r' =>
+    !(agree (leadTail r').1 (w ++ [d])) ||
+    (match w.drop (leadTail r').1.length with
+     | c :: _ => nonNull (leadTail r').2 && !(inSetB (first (leadTail r').2) c)
+     | [] => false)
+  | _ => false
+
+theorem matchAt_none_of_blocked {W : CSet} {r : Re} {w : List Nat} {d : Nat} (hb : blockedLead r w d = true)
+    (pre rest : List Nat) : matchAt W r ⟨pre, w ++ d :: rest⟩ = none := by
+  cases hm : matchAt W r ⟨pre, w ++ d :: rest⟩ with
+  | none => rfl
+  | some q =>
+    exfalso
+    unfold blockedLead at hb
+    cases r with
+    | seq x r' =>
+      cases x with
+      | bound neg =>
+        cases neg with
+        | true => simp at hb
+        | false =>
+          simp only [Bool.or_eq_true, Bool.not_eq_true'] at hb
+          unfold matchAt at hm
+          rw [m_seq] at hm
+          have hm' : m W r' ⟨pre, w ++ d :: rest⟩ some = some q := by
+            simp only [m] at hm
+            split at hm
+            · exact hm
+            · cases hm
+          have e : w ++ d :: rest = (w ++ [d]) ++ rest := by simp
+          rcases hb with h1 | h2
+          · rw [e] at hm'
+            have := lead_agree W r' pre (w ++ [d]) rest some q hm'
+            rw [this] at h1; cases h1
+          · cases hdrop : w.drop (leadTail r').1.length with
+            | nil => rw [hdrop] at h2; cases h2
+            | cons c t =>
+              rw [hdrop] at h2
+              simp only [Bool.and_eq_true, Bool.not_eq_true'] at h2
+              have hlen : (leadTail r').1.length ≤ w.length := by
+                cases Nat.lt_or_ge w.length (leadTail r').1.length with
+                | inl hlt =>
+                  have : w.drop (leadTail r').1.length = [] := List.drop_eq_nil_of_le (Nat.le_of_lt hlt)
+                  rw [this] at hdrop; cases hdrop
+                | inr hge => exact hge
+              have hm2 := lead_rem W r' pre w (d :: rest) some q hm' hlen
+              rw [hdrop] at hm2
+              obtain ⟨q', _, _, hf, hlt⟩ := m_first W (leadTail r').2 _ some q hm2
+              obtain ⟨c', t', hs', hin⟩ := hf (hlt h2.1)
+              simp only [List.cons_append, List.cons.injEq] at hs'
+              obtain ⟨hc', _⟩ := hs'
+              subst hc'
+              rw [inSetB_of_inSet hin] at h2
+              cases h2.2
+      | _ => simp at hb
+    | _ => simp at hb
+
+end MindsVerif.Re
